@@ -191,9 +191,10 @@ func newDecider(c *cors.Config) *decider {
 		return nil
 	}
 	d := &decider{}
+	allowAll := slices.Contains(c.Origins, "*")
 	for _, o := range c.Origins {
-		if o == "*" {
-			continue
+		if o == "*" || allowAll {
+			continue // `*` discards the discrete patterns
 		}
 		if p, err := origins.ParsePattern(o); err == nil {
 			d.tree.Insert(&p)
